@@ -40,7 +40,7 @@ bigint = st.one_of(
 )
 nonzero = bigint.map(lambda v: v if v != 0 else 1)
 posint = bigint.map(lambda v: abs(v) + 1)
-smallpos = st.one_of(st.integers(1, 200), st.integers(1, 10 ** 6), st.integers(1, 10 ** 9))
+smallpos = st.one_of(st.integers(1, 200), st.integers(1, 10 ** 6), st.integers(1, 10 ** 8))
 
 
 def _q(n, d):
@@ -104,12 +104,14 @@ ITEMS = {
     "div2": _item("div2", a=bigint, b=nonzero),
     "gcd2": _item("gcd2", a=bigint, b=bigint),
     "sym2": _item("sym2", a=bigint, b=bigint, p=st.integers(0, 2 ** 90)),
-    "un1": _item("un1", a=bigint, reps=st.integers(1, 30), flag=st.booleans()),
+    "un1": _item("un1", a=bigint, reps=st.integers(1, 30), flag=st.booleans(),
+                 pp=st.builds(_ppow, st.integers(2, 2000), st.integers(2, 9), st.sampled_from([0, 0, 1, -1]),
+                              st.sampled_from([1, 1, -1]))),
     "root": _item("root", a=bigint, n=st.one_of(st.integers(1, 13), st.integers(1, 70))),
     "powm": _item("powm", b=bigint, e=st.one_of(st.integers(-40, 40), st.integers(-2 ** 70, 2 ** 200)), m=posint),
     "seq": _item("seq", n=st.one_of(st.integers(0, 120), st.integers(0, 1500)), a=bigint, k=st.integers(0, 30),
                  m=st.integers(-3, 4)),
-    "smallnt": _item("smallnt", n=st.one_of(smallpos, smooth.map(lambda v: v % (10 ** 12) + 1)), a=bigint,
+    "smallnt": _item("smallnt", n=st.one_of(smallpos, smallpos, smooth.map(lambda v: v % (10 ** 11) + 1)), a=bigint,
                      big=bigint),
     "rat": _item("rat", x=ratpair, y=ratpair, e=st.integers(-8, 8)),
     "rpow": _item("rpow", x=ratpair, r=st.integers(1, 6), s=st.integers(-7, 7), t=st.integers(2, 7), y=ratpair,
@@ -189,9 +191,11 @@ def compile_item(it, base, tags=()):
         emit(["be_divexact", a * b, b])
     elif k == "gcd2":
         a, b = it["a"], it["b"]
-        for op in ("nt_gcd", "nt_lcm", "nt_gcd_ext", "be_gcd", "be_lcm", "be_gcdext", "be_divisible_p",
-                   "be_sign_abs_cmpabs"):
+        for op in ("nt_gcd", "nt_lcm", "be_gcd", "be_lcm", "be_divisible_p", "be_sign_abs_cmpabs"):
             emit([op, a, b])
+        if (a, b) != (0, 0) or "gcdext_zero_zero" not in tags:
+            emit(["nt_gcd_ext", a, b])
+            emit(["be_gcdext", a, b])
         if b != 0 or "kronecker_zero" not in tags:
             emit(["be_kronecker", a, b])
             emit(["nt_kronecker", a, b])
@@ -210,13 +214,13 @@ def compile_item(it, base, tags=()):
     elif k == "un1":
         a = it["a"]
         pa = abs(a)
-        # mp_perfect_power_p of the Boost backend is O(bits^2) Newton steps per prime exponent
-        # ("this is extremely slow!" in mp_boost.cpp): operands are kept below 2^260 there
-        pp = a if pa.bit_length() <= 260 else (a % (2 ** 200))
-        for op in ("be_perfect_power_p", "be_perfect_power"):
-            emit([op, pp])
-        emit(["nt_perfect_power_p", abs(pp)])
-        emit(["nt_perfect_power_decomposition", abs(pp) + (pp == 0), it["flag"]])
+        # mp_perfect_power_p of the Boost backend costs 0.2 s at 100 bits, 13 s at 200 bits and 50 s at 260 bits
+        # ("this is extremely slow!" in mp_boost.cpp): operands of the perfect-power tests stay below 2^100
+        for pp in ((a if pa.bit_length() <= 100 else a % (2 ** 96)), it.get("pp", 64)):
+            for op in ("be_perfect_power_p", "be_perfect_power"):
+                emit([op, pp])
+            emit(["nt_perfect_power_p", abs(pp)])
+            emit(["nt_perfect_power_decomposition", abs(pp) + (pp == 0), it["flag"]])
         for op in ("be_perfect_square_p", "be_perfect_square", "be_nextprime", "nt_nextprime", "be_hex", "be_fits",
                    "be_iabs"):
             emit([op, a])
